@@ -314,6 +314,73 @@ Section RoundTrip.
     reparsed (reparsed n) = reparsed n.
   Proof. intros Hp Ho. unfold reparsed at 1. rewrite (reparsed_val_of n Hp Ho). reflexivity. Qed.
 
+  (** ** the re-parsed tree satisfies the hypotheses again (the cycle can be repeated; a tree
+      that came from parsing printed text is covered by the theorems) *)
+  Lemma printable_set_key k n : printable (set_key k n) = printable n.
+  Proof. destruct n; reflexivity. Qed.
+  Lemma rt_ok_set_key k n : rt_ok (set_key k n) = rt_ok n.
+  Proof. destruct n; reflexivity. Qed.
+  Lemma cdepth_set_key k n : cdepth (set_key k n) = cdepth n.
+  Proof. destruct n; reflexivity. Qed.
+
+  Lemma forallb_map_children (f : node -> bool) (g : node -> node) ch :
+    Forall (fun c => printable c = true -> rt_ok c = true -> f (g c) = true) ch ->
+    forallb printable ch = true -> forallb rt_ok ch = true -> forallb f (map g ch) = true.
+  Proof.
+    induction 1 as [|c ch Hc _ IH]; intros Hp Ho; [reflexivity|].
+    cbn [forallb] in Hp, Ho. apply andb_true_iff in Hp as [Hp1 Hp2]. apply andb_true_iff in Ho as [Ho1 Ho2].
+    cbn [map forallb]. rewrite (Hc Hp1 Ho1), (IH Hp2 Ho2). reflexivity.
+  Qed.
+
+  Theorem reparsed_hyps : forall n, printable n = true -> rt_ok n = true ->
+    printable (reparsed n) = true /\ rt_ok (reparsed n) = true /\ cdepth (reparsed n) = cdepth n.
+  Proof.
+    induction n as [ty vs vi vd key ch IH] using node_ind'. intros Hp Ho.
+    split_hyps Hp Ho.
+    destruct (ty_cases _ Pty) as [E|[E|[E|[E|[E|[E|E]]]]]].
+    - unfold reparsed. rewrite val_of_eq, cdepth_eq. tysimpl. rewrite E. repeat split; reflexivity.
+    - unfold reparsed. rewrite val_of_eq, cdepth_eq. tysimpl. rewrite E. repeat split; reflexivity.
+    - unfold reparsed. rewrite val_of_eq, cdepth_eq. tysimpl. rewrite E. repeat split; reflexivity.
+    - rewrite E in Onum. tysimpl_in Onum.
+      apply andb_true_iff in Onum as [Ho' Hvi]. apply andb_true_iff in Ho' as [Hf Hv]. apply Z.eqb_eq in Hvi.
+      destruct (reparsed_number ty vs vi vd key ch E Hf Hv Hvi) as [d' [Er [Hf' [Hv' _]]]].
+      rewrite Er. rewrite printable_eq, rt_ok_eq, !cdepth_eq. tysimpl. rewrite E. tysimpl.
+      rewrite (sat_int_range d' Hv'), Hf', Z.eqb_refl. unfold valid_dbl. unfold dbl_ok in Hv'. rewrite Hv'.
+      repeat split; reflexivity.
+    - unfold reparsed. rewrite val_of_eq. tysimpl. rewrite E. tysimpl. cbn [tree_of].
+      rewrite printable_eq, rt_ok_eq, !cdepth_eq. tysimpl. rewrite E. tysimpl.
+      rewrite E in Pstr. tysimpl_in Pstr.
+      cbn [str_bytes present]. rewrite cstr_idem, cstr_str_bytes, Pstr. repeat split; reflexivity.
+    - unfold reparsed. rewrite val_of_eq. tysimpl. rewrite E. tysimpl. rewrite tree_of_arr.
+      rewrite E in Pch, Och. tysimpl_in Pch. tysimpl_in Och.
+      rewrite printable_eq, rt_ok_eq, !cdepth_eq. tysimpl. rewrite E. tysimpl. rewrite !map_map.
+      rewrite (forallb_map_children printable (fun x => tree_of strtod (val_of x)) ch);
+        [| eapply Forall_impl; [|exact IH]; intros c Hc Hpc Hoc; exact (proj1 (Hc Hpc Hoc)) | exact Pch | exact Och].
+      rewrite (forallb_map_children rt_ok (fun x => tree_of strtod (val_of x)) ch);
+        [| eapply Forall_impl; [|exact IH]; intros c Hc Hpc Hoc; exact (proj1 (proj2 (Hc Hpc Hoc))) | exact Pch | exact Och].
+      split; [reflexivity|]. split; [reflexivity|]. f_equal. f_equal.
+      apply (children_map_eq _ _ (fun _ => True)); [|exact Pch|exact Och].
+      eapply Forall_impl; [|exact IH]. intros c Hc Hpc Hoc. exact (proj2 (proj2 (Hc Hpc Hoc))).
+    - unfold reparsed. rewrite val_of_eq. tysimpl. rewrite E. tysimpl. rewrite tree_of_obj.
+      rewrite E in Pch, Och, Pkeys. tysimpl_in Pch. tysimpl_in Och. tysimpl_in Pkeys.
+      rewrite map_map. cbn [fst snd].
+      set (G := fun x : node => set_key (cstr (str_bytes (n_key x))) (tree_of strtod (val_of x))).
+      rewrite printable_eq, rt_ok_eq, !cdepth_eq. tysimpl. rewrite E. tysimpl. rewrite map_map.
+      rewrite (forallb_map_children (fun c => forallb is_byte (str_bytes (n_key c))) G ch); [| |exact Pch|exact Och].
+      2:{ apply Forall_forall. intros c Hin _ _. unfold G. rewrite n_key_set_key. cbn [str_bytes].
+          rewrite cstr_idem, cstr_str_bytes. exact (forallb_In _ _ _ Pkeys Hin). }
+      rewrite (forallb_map_children (fun c => present (n_key c)) G ch); [| |exact Pch|exact Och].
+      2:{ apply Forall_forall. intros c Hin _ _. unfold G. rewrite n_key_set_key. reflexivity. }
+      rewrite (forallb_map_children printable G ch);
+        [| eapply Forall_impl; [|exact IH]; intros c Hc Hpc Hoc; unfold G; rewrite printable_set_key; exact (proj1 (Hc Hpc Hoc)) | exact Pch | exact Och].
+      rewrite (forallb_map_children rt_ok G ch);
+        [| eapply Forall_impl; [|exact IH]; intros c Hc Hpc Hoc; unfold G; rewrite rt_ok_set_key; exact (proj1 (proj2 (Hc Hpc Hoc))) | exact Pch | exact Och].
+      split; [reflexivity|]. split; [reflexivity|]. f_equal. f_equal.
+      apply (children_map_eq _ _ (fun _ => True)); [|exact Pch|exact Och].
+      eapply Forall_impl; [|exact IH]. intros c Hc Hpc Hoc. unfold G. rewrite cdepth_set_key.
+      exact (proj2 (proj2 (Hc Hpc Hoc))).
+  Qed.
+
   (** * Texts *)
 
   (** a bare RFC value (no leading or trailing whitespace) followed by anything that cannot
